@@ -4,6 +4,7 @@ import Mp.Analysis
 import Mp.Cue
 import Mp.CueFunc
 import Mp.Tree
+import Mp.CueWalk
 /-! Line-protocol handlers of the model driver (core-only: links as an executable). -/
 open Lean
 namespace Mp
@@ -179,7 +180,17 @@ def handleCue (line : String) : String :=
       | .err => "ERR"
     else
     -- "at-root": the same key path written from `@` at the top level: it starts at the root like `$`
-    if pos != "" && pos != "at-root" then "UNMODELLED" else      -- other query shapes are checked by the Go oracle
+    -- other query shapes: the walk of the blocked root fields over the whole operation (Mp/CueWalk.lean) on the query text itself;
+    -- it answers where it finds a blocked root field read and declines otherwise (the types of calls, filters and groups
+    -- are decided by the Go oracle)
+    if pos != "" && pos != "at-root" then
+      match (j.getObjValAs? String "qh").toOption with
+      | none => "UNMODELLED"
+      | some qh =>
+        match (parse goTables (unhex qh)).1, blockedFields root [] cp with
+        | .op t, some bl => if unavailable (bl.map (·.toUTF8.toList)) t then "REJ blocked" else "UNMODELLED"
+        | _, _ => "UNMODELLED"
+    else
     let calls : List (String × Nat) := match j.getObjVal? "calls" with
       | .ok (.arr a) => a.toList.map fun c => ((c.getObjValAs? String "n").toOption.getD "", (c.getObjValAs? Nat "k").toOption.getD 0)
       | _ => []
